@@ -79,14 +79,15 @@ def goals_differential(rng, tier):
     impl = E.run_cases(exe, cases)
     model = E.run_cases(E.model_exe(), cases)
     viol = []
+    corr = None
     for c, a, b in zip(cases, impl, model):
         d = E.first_diff(a, b)
-        if d is not None:
-            viol.append(Violation(f"correspondence:goals:{c.ops[d].split()[1] if d < len(c.ops) else '?'}",
-                                  f"model and WorkerGoals disagree on `{c.ops[d] if d < len(c.ops) else '?'}`: impl={a[d] if d < len(a) else '?'} model={b[d] if d < len(b) else '?'}",
-                                  c, a, b, False, broken="correspondence goals (Lean model ≠ WorkerGoals)"))
-            break
-        # the property's own statement on the implementation: poll returns the highest-priority requested goal
+        if d is not None and corr is None:
+            corr = Violation(f"correspondence:goals:{c.ops[d].split()[1] if d < len(c.ops) else '?'}",
+                             f"model and WorkerGoals disagree on `{c.ops[d] if d < len(c.ops) else '?'}`: impl={a[d] if d < len(a) else '?'} model={b[d] if d < len(b) else '?'}",
+                             c, a, b, False, broken="correspondence goals (Lean model ≠ WorkerGoals)")
+        # the property's own statement on the implementation: poll returns the highest-priority requested goal, and a
+        # request stays pending until it is polled (a lost request is a GC / shutdown / fork request that is never served)
         req = set()
         for op, out in zip(c.ops, a):
             t = op.split()
@@ -102,14 +103,23 @@ def goals_differential(rng, tier):
                 if out != want:
                     viol.append(Violation("goals:priority", f"poll_next_goal returned {out}, requests were {sorted(req)} (priority Gc > Shutdown > StopForFork)", c, a, b, True))
                 req.discard(min(req)) if req else None
+            elif t[1] == "isreq" and t[2].isdigit() and int(t[2]) <= 2:
+                if (out == "true") != (int(t[2]) in req):
+                    viol.append(Violation("goals:request-lost", f"`{op}` answered {out} after `{' ; '.join(c.ops[:c.ops.index(op) + 1])}`: pending requests "
+                                                                f"must be {sorted(req)} — a request that was made and not yet polled is gone "
+                                                                f"(or one that was never made appeared)", c, a, b, True))
+            if viol:
+                break
         if viol:
             break
+    if not viol and corr is not None:
+        viol.append(corr)
     return viol, {"goals_unit_differential": {"cases": len(cases), "op_lines": sum(len(c.ops) for c in cases),
                                               "exhaustive_up_to_length": 4}}
 
 
 def main(argv=None):
-    return S.run_check(PID, MODULES, THEOREMS, KEYS + ("goals:priority", "goals:set-request-result"), build_programs, argv, META,
+    return S.run_check(PID, MODULES, THEOREMS, KEYS + ("goals:priority", "goals:set-request-result", "goals:request-lost"), build_programs, argv, META,
                        extra=goals_differential)
 
 
